@@ -215,6 +215,8 @@ def r22_6(ctx, rep):
             doms = cfg.dominated_by(r.id, lambda y: y.kind == "assume")
             if any(norm(g.ast).replace(" ", "") in ("not%s" % dargs, "len(%s)==0" % dargs, dargs) and ((not g.taken) == (norm(g.ast) == dargs)) for g in doms):
                 continue
+            if r.id in nodes:
+                continue  # the substitution is an operand of the returned expression itself
             bad = bad or cfg.must_pass(cfg.entry, r.id, nodes)
         rep.ob(R, site, "every return passes the substitution of the " + kind, bad is None,
                "the method can return without substituting the %s: a pass that eliminates a symbol occurring there leaves it behind" % kind,
@@ -282,6 +284,8 @@ def r22_8(ctx, rep):
                 # one whose length the map was made for
                 recv = inlined(val.func.value, block)
                 n_arg = recv.args[2] if len(recv.args) > 2 else None
+                if isinstance(n_arg, ast.Name):
+                    n_arg = inlined(n_arg, fn.body, depth=1)  # the count may be a named local of the method
                 loop_obj = None
                 if isinstance(n_arg, ast.Call) and is_name(n_arg.func, "len") and n_arg.args and isinstance(n_arg.args[0], ast.Attribute) and n_arg.args[0].attr == "values":
                     loop_obj = norm(n_arg.args[0])
